@@ -176,10 +176,13 @@ func (c *client) read(ctx context.Context, rreq *ocirequest.Request) (_ ociregis
 				return nil, err
 			}
 			resp1.Body.Close()
-			desc, err = descriptorFromResponse(resp1, ociregistry.Digest(rreq1.Digest), requireSize|requireDigest)
+			desc1, err := descriptorFromResponse(resp1, ociregistry.Digest(rreq1.Digest), requireSize|requireDigest)
 			if err != nil {
 				return nil, err
 			}
+			// The digest is all we need from the HEAD response: the
+			// size and media type are those of the body we're about to read.
+			desc.Digest = desc1.Digest
 		}
 	}
 	return newBlobReader(resp.Body, desc), nil
